@@ -3234,8 +3234,8 @@ func (m *Machine) SetSchema(newSchema Schema, names S) error {
 		m.schemaMx.Unlock()
 		return err
 	}
-	// TODO is this safe?
-	m.subs.SetClock(m.Clock(nil))
+	// keep sharing the live clock with the subscriptions (not a copy)
+	m.subs.SetClock(m.clock)
 	m.schemaMx.Unlock()
 
 	// notify the resolver and tracers
